@@ -304,6 +304,10 @@ PROPS["C11"] = {
 
 # C08 inside feedback blocks: the shapes the block announces for its inner layers (read from Display) follow the size formulas
 PROPS["C08"]["mc"].append(flow_mc("fb", ["{2, 4, 7, 9, 10}", 1, 1, 2, "{1}", "FALSE"], ["{1, 2, 3, 4, 5, 6, 7, 8, 9, 10}", 1, 1, 3, "{1}", "FALSE"]))
+# skip connections across the flat <-> spatial boundary (a spatial layer directly after a dense layer stores a flat input)
+_c08_skip = flow_mc("skip", ["{2, 3, 5}", 1, 1, 1, "{1}", "FALSE"], ["{1, 2, 3, 4, 5, 6, 7}", 2, 1, 1, "{1}", "FALSE"])
+_c08_skip.pop("require", None)
+PROPS["C08"]["mc"].append(_c08_skip)
 
 PROPS["C18"] = {
     "level": "model_checking",
